@@ -307,3 +307,43 @@ package ocifilter
 //@   ensures[stripped] err == nil && hasPrefix(repo, old(p)) ==>
 //@             calls == [old(yield)(trimPrefix(repo, old(p)), nil)] && result == calls[0].result
 //@   ensures[others-skipped] err == nil && !hasPrefix(repo, old(p)) ==> calls == [] && result == true
+
+// ---------------------------------------------------------------------------
+// C14: the Immutable wrapper.
+//
+// Nothing is ever deleted through it: its three Delete methods are its own
+// (structural), make no call and return ErrDenied, and no method of the
+// wrapper reaches a Delete method of the wrapped registry (sinks). A tagged
+// push follows the resolve / push / resolve protocol: a tag that resolves is
+// never pushed over, and success means the tag resolves to the pushed content.
+
+//@ sink (immutable).Interface DeleteBlob(ctx, repo, digest) requires false
+//@ sink (immutable).Interface DeleteManifest(ctx, repo, digest) requires false
+//@ sink (immutable).Interface DeleteTag(ctx, repo, name) requires false
+
+//@ func (immutable).DeleteBlob
+//@   modifies nothing
+//@   ensures[nothing-deleted] calls == [] && result == ociregistry.ErrDenied
+//@ func (immutable).DeleteManifest
+//@   modifies nothing
+//@   ensures[nothing-deleted] calls == [] && result == ociregistry.ErrDenied
+//@ func (immutable).DeleteTag
+//@   modifies nothing
+//@   ensures[nothing-deleted] calls == [] && result == ociregistry.ErrDenied
+
+//@ func (immutable).PushManifest
+//@   requires r.Interface != nil
+//@   ensures[untagged-passes-through] tag == "" ==>
+//@     calls == [r.Interface.PushManifest(ctx, repo, tag, contents, mediaType)] && result.0 == calls[0].result.0 && result.1 == calls[0].result.1
+//@   ensures[resolve-push-resolve] tag != "" ==>
+//@     (calls == [r.Interface.ResolveTag(ctx, repo, tag)] && calls[0].result.1 == nil) ||
+//@     (calls == [r.Interface.ResolveTag(ctx, repo, tag), r.Interface.PushManifest(ctx, repo, tag, contents, mediaType)] &&
+//@        calls[0].result.1 != nil && calls[1].result.1 != nil) ||
+//@     (calls == [r.Interface.ResolveTag(ctx, repo, tag), r.Interface.PushManifest(ctx, repo, tag, contents, mediaType), r.Interface.ResolveTag(ctx, repo, tag)] &&
+//@        calls[0].result.1 != nil && calls[1].result.1 == nil)
+//@   ensures[bound-to-the-same-content-confirmed] tag != "" && calls == [r.Interface.ResolveTag(ctx, repo, tag)] &&
+//@     calls[0].result.0.Digest == digest.FromBytes(contents) ==> result.1 == nil && result.0 == calls[0].result.0
+//@   ensures[bound-to-other-content-denied] tag != "" && calls == [r.Interface.ResolveTag(ctx, repo, tag)] &&
+//@     calls[0].result.0.Digest != digest.FromBytes(contents) ==> errIs(result.1, ociregistry.ErrDenied)
+//@   ensures[failed-push-reported] tag != "" && ncalls() == 2 ==> result.1 != nil
+//@   ensures[success-means-the-tag-resolves-to-the-content] tag != "" && result.1 == nil ==> result.0.Digest == digest.FromBytes(contents)
